@@ -9,7 +9,10 @@
 // e.g. datatype.Int, have only those).
 package scribble
 
-import "reflect"
+import (
+	"math/big"
+	"reflect"
+)
 
 // Over scribbles over everything reachable from v (normally a pointer). It returns the number of locations written.
 func Over(v interface{}) int {
@@ -33,6 +36,20 @@ func (w *walker) walk(v reflect.Value, depth int) {
 			return
 		}
 		w.seen[v.Pointer()] = true
+		if v.CanInterface() { // math/big values have unexported fields only: edit them through their own methods
+			switch b := v.Interface().(type) {
+			case *big.Int:
+				b.Add(b, big.NewInt(977))
+				w.n++
+				return
+			case *big.Float:
+				if !b.IsInf() {
+					b.Add(b, big.NewFloat(977.5))
+				}
+				w.n++
+				return
+			}
+		}
 		w.walk(v.Elem(), depth+1)
 	case reflect.Interface:
 		if v.IsNil() {
